@@ -325,7 +325,10 @@ impl Mp4Track {
             return Err(Error::InvalidData("must have either stco or co64 boxes"));
         }
         if let Some(ref stco) = self.trak.mdia.minf.stbl.stco {
-            if let Some(offset) = stco.entries.get(chunk_id as usize - 1) {
+            if let Some(offset) = (chunk_id as usize)
+                .checked_sub(1)
+                .and_then(|i| stco.entries.get(i))
+            {
                 return Ok(*offset as u64);
             } else {
                 return Err(Error::EntryInStblNotFound(
@@ -335,7 +338,10 @@ impl Mp4Track {
                 ));
             }
         } else if let Some(ref co64) = self.trak.mdia.minf.stbl.co64 {
-            if let Some(offset) = co64.entries.get(chunk_id as usize - 1) {
+            if let Some(offset) = (chunk_id as usize)
+                .checked_sub(1)
+                .and_then(|i| co64.entries.get(i))
+            {
                 return Ok(*offset);
             } else {
                 return Err(Error::EntryInStblNotFound(
@@ -416,7 +422,10 @@ impl Mp4Track {
             if stsz.sample_size > 0 {
                 return Ok(stsz.sample_size);
             }
-            if let Some(size) = stsz.sample_sizes.get(sample_id as usize - 1) {
+            if let Some(size) = (sample_id as usize)
+                .checked_sub(1)
+                .and_then(|i| stsz.sample_sizes.get(i))
+            {
                 Ok(*size)
             } else {
                 Err(Error::EntryInStblNotFound(
@@ -481,6 +490,9 @@ impl Mp4Track {
             let first_chunk = stsc_entry.first_chunk;
             let first_sample = stsc_entry.first_sample;
             let samples_per_chunk = stsc_entry.samples_per_chunk;
+            if samples_per_chunk == 0 {
+                return Err(Error::InvalidData("stsc entry with zero samples per chunk"));
+            }
 
             let chunk_id = sample_id
                 .checked_sub(first_sample)
@@ -494,12 +506,16 @@ impl Mp4Track {
 
             let first_sample_in_chunk = sample_id - (sample_id - first_sample) % samples_per_chunk;
 
-            let mut sample_offset = 0;
+            let mut sample_offset = chunk_offset;
             for i in first_sample_in_chunk..sample_id {
-                sample_offset += self.sample_size(i)?;
+                sample_offset = sample_offset
+                    .checked_add(self.sample_size(i)? as u64)
+                    .ok_or(Error::InvalidData(
+                        "attempt to calculate sample offset with overflow",
+                    ))?;
             }
 
-            Ok(chunk_offset + sample_offset as u64)
+            Ok(sample_offset)
         }
     }
 
@@ -548,13 +564,21 @@ impl Mp4Track {
                             "attempt to sum stts entries sample_count with overflow",
                         ))?;
                 if sample_id < new_sample_count {
-                    let start_time =
-                        (sample_id - sample_count) as u64 * entry.sample_delta as u64 + elapsed;
+                    let start_time = ((sample_id - sample_count) as u64
+                        * entry.sample_delta as u64)
+                        .checked_add(elapsed)
+                        .ok_or(Error::InvalidData(
+                            "attempt to calculate sample time with overflow",
+                        ))?;
                     return Ok((start_time, entry.sample_delta));
                 }
 
                 sample_count = new_sample_count;
-                elapsed += entry.sample_count as u64 * entry.sample_delta as u64;
+                elapsed = elapsed
+                    .checked_add(entry.sample_count as u64 * entry.sample_delta as u64)
+                    .ok_or(Error::InvalidData(
+                        "attempt to calculate sample time with overflow",
+                    ))?;
             }
 
             Err(Error::EntryInStblNotFound(
@@ -618,7 +642,7 @@ impl Mp4Track {
         reader.seek(SeekFrom::Start(sample_offset))?;
         reader.read_exact(&mut buffer)?;
 
-        let (start_time, duration) = self.sample_time(sample_id).unwrap(); // XXX
+        let (start_time, duration) = self.sample_time(sample_id)?;
         let rendering_offset = self.sample_rendering_offset(sample_id);
         let is_sync = self.is_sync_sample(sample_id);
 
